@@ -50,12 +50,35 @@ ViewWhy(v, e) ==
          ELSE IF v.rest # Rest(C.bytes, e) THEN "C03 bytes after the message are not preserved untouched as remainder"
          ELSE "ok"
 
+\* C03 proper: the view after any segmentation equals the view after ONE piece (views[1] is recorded from the
+\* one-piece feed), and the one-piece view is complete with exactly the bytes after the message as remainder.
+\* (Whether the one-piece field values are RIGHT is C15 / C14: ViewWhy above is used by TraceCodec.)
+DiffField(v, w) ==
+    IF v.exc # w.exc THEN "raised " \o v.exc
+    ELSE IF v.complete # w.complete THEN "completion status"
+    ELSE IF <<v.method, v.host, v.port, v.path, v.version, v.code, v.reason>> # <<w.method, w.host, w.port, w.path, w.version, w.code, w.reason>>
+         THEN "start-line fields"
+    ELSE IF v.hdrs # w.hdrs THEN "headers"
+    ELSE IF v.body # w.body THEN "decoded body"
+    ELSE IF v.rest # w.rest THEN "unconsumed remainder"
+    ELSE "other"
+SegViewWhy(i, e) ==
+    LET v == C.views[i] one == C.views[1] IN
+    IF i = 1
+    THEN IF v.exc # "" THEN "C03 parser raised " \o v.exc \o " on a valid message fed in one piece"
+         ELSE IF ~v.complete THEN "C03 parser not complete although the whole message was supplied in one piece"
+         ELSE IF v.rest # Rest(C.bytes, e) THEN "C03 bytes after the message are not preserved untouched as remainder (one piece)"
+         ELSE "ok"
+    ELSE IF v = one THEN "ok"
+    ELSE "C03 state after a segmented feed differs from the state after one piece: " \o DiffField(v, one)
+
 \* index of the piece that contains the last byte of the message
 KExp(s, e) == MinOf({i \in 3..Len(s) : s[i] >= e.end}) - 2
 SegWhy(s, e, vwv) ==
     LET k == s[1] kx == KExp(s, e) IN
     IF k # 0 /\ k < kx THEN "C03 message reported complete before its last byte was supplied"
     ELSE IF vwv[s[2]] # "ok" THEN vwv[s[2]]
+    ELSE IF vwv[1] # "ok" THEN "ok"       \* already reported through the one-piece view
     ELSE IF k = 0 \/ k > kx THEN "C03 message not reported complete when its last byte was supplied"
     ELSE "ok"
 
@@ -65,7 +88,7 @@ TNext ==
        /\ LET e == Exp IN
           IF ~e.complete \/ e.bad
           THEN vw' = <<>> /\ verdict' = "0|machinery: corpus message is not a complete valid message for the reference parser" /\ phase' = 2
-          ELSE vw' = [i \in 1..Len(C.views) |-> ViewWhy(C.views[i], e)] /\ verdict' = "ok" /\ phase' = 1
+          ELSE vw' = [i \in 1..Len(C.views) |-> SegViewWhy(i, e)] /\ verdict' = "ok" /\ phase' = 1
        /\ UNCHANGED tid
     \/ /\ phase = 1
        /\ LET e == Exp
